@@ -13,7 +13,7 @@ import time
 from fractions import Fraction
 import z3
 
-from .values import (Poly, LinComb, BlockVec, SeqVal, Ref, HeapObj, Closure, UFunc, ModuleRef, BoundMethod, Opaque,
+from .values import (Poly, LinComb, BlockVec, SeqVal, Ref, HeapObj, Closure, UFunc, ModuleRef, BoundMethod, Opaque, SuperProxy, BoundFunc, deps_of,
                      ExcVal, ConcVec, TabVal, fresh_name, is_z3, to_z3, to_real, to_bool, to_poly, float_literal)
 from . import builtins as B
 
@@ -214,6 +214,43 @@ class Executor(object):
         if dt > 1.0 and os.environ.get("VERIF_TRACE"):
             sys.stderr.write("[feas] %s %.1f s\n" % (r, dt))
         return r != z3.unsat
+
+    def entailed_branch(self, st, g):
+        """(may g hold, may not-g hold) on this path, for deciding the guard of an unrolled loop.  The small quantifier-free facts that
+        share a variable with the guard are asked first (fast, and immune to a busy machine); the full path condition only if they leave
+        both outcomes open."""
+        def names(e, acc):
+            stack, seen = [e], set()
+            while stack:
+                x = stack.pop()
+                if x.get_id() in seen:
+                    continue
+                seen.add(x.get_id())
+                if z3.is_const(x) and x.decl().kind() == z3.Z3_OP_UNINTERPRETED:
+                    acc.add(x.decl().name())
+                stack.extend(x.children())
+            return acc
+        gv = names(g, set())
+        small = []
+        for a in list(self.global_axioms) + list(st.pc):
+            k = a.get_id()
+            hq = self._hasq_cache.get(k)
+            if hq is None:
+                hq = self._hasq_cache[k] = _has_quantifier(a)
+            if not hq and len(a.sexpr()) < 600 and (names(a, set()) & gv):
+                small.append(a)
+        res = []
+        for goal in (g, z3.Not(g)):
+            s = z3.Solver()
+            s.set("timeout", 5000)
+            for a in small:
+                s.add(a)
+            s.add(goal)
+            r = s.check()
+            if r != z3.unsat:
+                r = z3.sat if self.feasible(st, goal) else z3.unsat
+            res.append(r != z3.unsat)
+        return tuple(res)
 
     def mangle(self, name, ctx):
         if name.startswith("__") and not name.endswith("__") and ctx.cls is not None:
@@ -449,6 +486,15 @@ class Executor(object):
         return out
 
     def getattr(self, v, attr, st, ctx, node=None):
+        if isinstance(v, SuperProxy):
+            inst_cls = st.obj(v.selfval).cls if isinstance(v.selfval, Ref) else v.after
+            mro = self.src.mro(inst_cls)
+            names = [c.name for c in mro]
+            rest = mro[names.index(v.after) + 1:] if v.after in names else []
+            for ci in rest:
+                if attr in ci.methods:
+                    return [(st, BoundFunc(v.selfval, ci.methods[attr]))]
+            raise Unsupported("super().%s: no definition after %s in the MRO of %s" % (attr, v.after, inst_cls))
         if isinstance(v, ModuleRef):
             path = v.path + "." + attr
             path = self.aliases.get(path, path)
@@ -905,6 +951,15 @@ class Executor(object):
             return self.call_method(f, args, kwargs, st, ctx, node)
         if isinstance(f, Ref) and st.obj(f).kind == "object":
             return self.call_method(BoundMethod(f, "__call__"), args, kwargs, st, ctx, node)
+        if isinstance(f, BoundFunc):
+            return self.call_function(f.finfo, [f.selfval] + list(args), kwargs, st, ctx, node)
+        if isinstance(f, ModuleRef) and f.path == "super" and not args and not kwargs and ctx.finfo is not None and ctx.finfo.cls is not None \
+                and ctx.finfo.node.args.args and ctx.finfo.node.args.args[0].arg in st.env:
+            return [(st, SuperProxy(st.env[ctx.finfo.node.args.args[0].arg], ctx.finfo.cls.name))]
+        if isinstance(f, ModuleRef) and f.path.endswith(".__new__") and len(args) == 1 and isinstance(args[0], ModuleRef) \
+                and args[0].path.split(".")[-1] in self.src.classes and f.path.split(".")[-2] == args[0].path.split(".")[-1]:
+            # Cls.__new__(Cls): a bare instance, __init__ not run
+            return [(st, st.new_obj(args[0].path.split(".")[-1]))]
         if isinstance(f, ModuleRef):
             path = f.path
             short = path.split(".")[-1]
@@ -921,7 +976,9 @@ class Executor(object):
                     r = h(self, st, ctx, args, kwargs)
                 except B.Havoc as hv:
                     self.note_unmodelled(ctx, "call %s (%s)" % (path, hv))
-                    r = Opaque(short)
+                    # a numpy function the executor does not interpret on these operands: pure (A3), so its value is a function of its arguments
+                    ds = [deps_of(a) for a in list(args) + list(kwargs.values())] if path.startswith(("D.ar_numpy.", "numpy.", "abs", "max", "min")) else [None]
+                    r = Opaque(short, deps=frozenset().union(*ds) if ds and all(d is not None for d in ds) else None)
                 return r if isinstance(r, list) else [(st, r)]
             if short in self.contracts:
                 return self.apply_contract(self.contracts[short], args, kwargs, st, ctx, node)
@@ -1590,10 +1647,24 @@ class Executor(object):
             fi._loop_ids = cache
         return cache[1].get(id(node), -1)
 
+    def loop_spec(self, node, ctx, k):
+        """Sidecar entry of a loop: keyed by its syntactic ordinal, or by a string that must occur in the loop header as written in the
+        current source ("for <target> in <iter>" / "while <test>") -- the latter survives the insertion of unrelated loops before it."""
+        if not (ctx.contract and ctx.contract.loops):
+            return None
+        loops = ctx.contract.loops
+        if k in loops:
+            return loops[k]
+        head = ("for %s in %s" % (ast.unparse(node.target), ast.unparse(node.iter))) if isinstance(node, ast.For) else "while " + ast.unparse(node.test)
+        for key, spec in loops.items():
+            if isinstance(key, str) and key in head:
+                return spec
+        return None
+
     def s_For(self, node, st, ctx):
         k = self.loop_ordinal(node, ctx)
         out = []
-        spec0 = ctx.contract.loops.get(k) if ctx.contract and ctx.contract.loops else None
+        spec0 = self.loop_spec(node, ctx, k)
         if spec0 is not None and spec0.get("cut"):
             return self.symbolic_for(node, None, st, ctx, k, spec0)
         for s, itv in self.eval(node.iter, st, ctx):
@@ -1603,7 +1674,7 @@ class Executor(object):
             try:
                 items = self.iterate(itv, s, ctx)
             except Unsupported:
-                spec = ctx.contract.loops.get(k) if ctx.contract else None
+                spec = self.loop_spec(node, ctx, k)
                 if spec is None:
                     raise
                 out.extend(self.symbolic_for(node, itv, s, ctx, k, spec))
@@ -1723,7 +1794,7 @@ class Executor(object):
 
     def s_While(self, node, st, ctx):
         k = self.loop_ordinal(node, ctx)
-        spec = ctx.contract.loops.get(k) if ctx.contract and ctx.contract.loops else None
+        spec = self.loop_spec(node, ctx, k)
         if spec is None:
             return self.unroll_while(node, st, ctx)
         lineno = node.lineno
@@ -1796,6 +1867,8 @@ class Executor(object):
                                 goal = z3.And(to_z3(v0) >= 0, to_z3(v1) < to_z3(v0))
                             self.prove(s2, ctx, goal, "variant", "variant#loop%d[%s]" % (k, tr), lineno)
                     elif oc[0] == "break":
+                        if spec.get("on_break") is not None:
+                            spec["on_break"](self, s2, ctx)
                         out.append((s2, None))
                     else:
                         out.append((s2, oc))
@@ -1991,7 +2064,19 @@ class Executor(object):
                         elif z3.is_false(gb):
                             t = False
                         else:
-                            raise Unsupported("while loop at line %d has a symbolic guard and no invariant" % node.lineno)
+                            # the guard is symbolic: it is still decided if the path condition entails it or its negation
+                            can_t, can_f = self.entailed_branch(s1, gb)
+                            if can_t and not can_f:
+                                t = True
+                            elif can_f and not can_t:
+                                t = False
+                            elif not can_t and not can_f:
+                                continue          # the path itself is infeasible
+                            else:
+                                if os.environ.get("VERIF_TRACE"):
+                                    sys.stderr.write("[unroll-pc] %s\n" % [str(a)[:120] for a in s1.pc if "hl1_len" in str(a) and len(str(a)) < 400])
+                                    sys.stderr.write("[unroll] guard %s (raw %s) undecided at line %d; env __pre_length=%s; trace=%s\n" % (gb, g, node.lineno, s1.env.get("__pre_length"), s1.trace[-12:]))
+                                raise Unsupported("while loop at line %d has a symbolic guard and no invariant" % node.lineno)
                     else:
                         t = self.truth(g, s1)
                     if not t:
